@@ -51,6 +51,7 @@ Proof.
     destruct (find (op_same_id (ox_ident x)) (ops_visible st)) as [stored|] eqn:Ef; [|discriminate].
     apply find_some in Ef as [_ Hs].
     destruct (negb _); [discriminate|].
+    destruct (String.eqb (ox_event x) ev_processed && negb (String.eqb (op_type stored) ev_reinit)); [discriminate|].
     match type of Hok with match ?b with _ => _ end = _ => destruct b as [hb []|hb|] eqn:Eb; try discriminate end.
     eexists. split; [apply (delete_leaves_tombstone _ _ _ Hok)|].
     apply op_same_id_spec. apply op_same_id_spec in Hs as [Hr Hp]. split; [exact Hr|].
@@ -59,4 +60,17 @@ Proof.
   unfold execute_operation. cbn [h_st].
   destruct (String.eqb (ox_event x') ""); [reflexivity|].
   rewrite (tombstone_hides (h_st h) tomb (ox_ident x') Hin (op_same_id_trans _ _ _ Hid Ht)). reflexivity.
+Qed.
+
+(* the event "processed" (nothing to post) answers a reinit operation only: under any other pending
+   operation the result is refused and nothing changes - the operation stays pending *)
+Theorem processed_event_only_for_reinit st x stored :
+  find (op_same_id (ox_ident x)) (ops_visible st) = Some stored ->
+  ox_event x = ev_processed -> op_type stored <> ev_reinit ->
+  execute_operation {| h_st := st; h_tr := [] |} x = RErr {| h_st := st; h_tr := [] |}.
+Proof.
+  intros Hf He Ht. unfold execute_operation. cbn [h_st]. rewrite He.
+  change (String.eqb ev_processed "") with false. cbv iota. rewrite Hf.
+  destruct (negb _); [reflexivity|].
+  rewrite String.eqb_refl. apply String.eqb_neq in Ht. rewrite Ht. reflexivity.
 Qed.
